@@ -31,7 +31,12 @@ func main() {
 	ping := func(n *enode.Node) (uint64, error) { // the pinged node is deleted while its pong is under way
 		wg.Add(2)
 		go func() { defer wg.Done(); tab.VerifDelete(n) }() // == UDPv5.DeleteNode
-		go func() { defer wg.Done(); for i := 0; i < 40; i++ { tab.VerifSnapshot() } }() // lock contention widens the window
+		go func() {
+			defer wg.Done()
+			for i := 0; i < 40; i++ {
+				tab.VerifSnapshot()
+			}
+		}() // lock contention widens the window
 		return n.Seq(), nil
 	}
 	self := node(enode.ID{}, 1)
